@@ -366,6 +366,23 @@ func (en *env) ident(name string) tval {
 			return v
 		}
 		if en.lenientLocals {
+			// a branch-local variable with a single definition: its value if that block was
+			// executed on the way here, otherwise an arbitrary value
+			if v, blk, ok := en.e.singleDefinition(name); ok {
+				if r, has := en.e.reachAt[blk]; has {
+					if tv, defined := en.e.vals[v]; defined {
+						t := v.Type()
+						k := "undef_" + name
+						u, seen := en.names[k]
+						if !seen {
+							n := en.e.declareInput(en.st, "undef_"+name, t)
+							u = tval{term: n, typ: t}
+							en.names[k] = u
+						}
+						return tval{term: ite(r, tv, u.term), typ: t}
+					}
+				}
+			}
 			if t := en.e.sourceVarType(name); t != nil {
 				k := "undef_" + name
 				if v, ok := en.names[k]; ok {
@@ -1497,6 +1514,53 @@ func (e *fnEnc) resolveSourceVar(name string, li *loopInfo, st *state) (tval, bo
 		return tval{term: e.val(best), typ: best.Type()}, true
 	}
 	return tval{}, false
+}
+
+// singleDefinition: the only SSA value bound to a source variable of that name (debug info),
+// and its block.
+func (e *fnEnc) singleDefinition(name string) (ssa.Value, *ssa.BasicBlock, bool) {
+	var val ssa.Value
+	var blk *ssa.BasicBlock
+	for _, b := range e.fn.Blocks {
+		for _, ins := range b.Instrs {
+			d, ok := ins.(*ssa.DebugRef)
+			if !ok || d.IsAddr {
+				continue
+			}
+			obj := d.Object()
+			if obj == nil || obj.Name() != name {
+				continue
+			}
+			if _, isVar := obj.(*types.Var); !isVar {
+				continue
+			}
+			if val != nil && val != d.X {
+				return nil, nil, false
+			}
+			val = d.X
+			if vi, ok := d.X.(ssa.Instruction); ok {
+				blk = vi.Block()
+			} else {
+				return nil, nil, false
+			}
+		}
+	}
+	if val == nil || blk == nil {
+		return nil, nil, false
+	}
+	if e.inAnyLoop(blk) {
+		return nil, nil, false
+	}
+	return val, blk, true
+}
+
+func (e *fnEnc) inAnyLoop(b *ssa.BasicBlock) bool {
+	for _, l := range e.loopList {
+		if l.blocks[b] {
+			return true
+		}
+	}
+	return false
 }
 
 // sourceVarType: the type of a local source variable of the function, if it has one of that name.
